@@ -879,7 +879,8 @@ fn do_command_substitution_for_dollar(sh: &mut Shell, tokens: &mut types::Tokens
                 return;
             }
 
-            let to = format!("${{head}}{}${{tail}}", output_txt);
+            // the output is data, not a replacement template: keep `$` literal
+            let to = format!("${{head}}{}${{tail}}", output_txt.replace('$', "$$"));
             let line_ = line.clone();
             let result = re.replace(&line_, to.as_str());
             line = result.to_string();
